@@ -120,7 +120,21 @@ impl pl::PlFold for Resolver<'_> {
                                 self.fold_expr(expr)?
                             }
                         }
-                        _ => self.fold_expr(expr.as_ref().clone())?,
+                        _ => {
+                            let mut value = self.fold_expr(expr.as_ref().clone())?;
+                            // Each use of a named value is an expression of its
+                            // own: the first keeps the id of the declaration,
+                            // later ones get a new id. Otherwise two columns
+                            // defined by the same name would be one column.
+                            if value.lineage.is_none() {
+                                if let Some(value_id) = value.id {
+                                    if !self.inlined_values.insert(value_id) {
+                                        value.id = None;
+                                    }
+                                }
+                            }
+                            value
+                        }
                     },
 
                     DeclKind::InstanceOf(_, ty) => {
